@@ -64,6 +64,20 @@ def scenario(rng, ticks):
         for (rt, n), idle in plan.items():
             if not idle:
                 ops.append({"op": "lookup", "rt": rt, "name": n})
+        # the control plane pushes again shortly before the sweep: an update is not a lookup, idle entries stay idle
+        for rt in ("lds", "rds", "cds", "eds"):
+            names = [n for (t, n) in plan if t == rt]
+            if names and rng.random() < 0.5:
+                g.version += 1
+                res = []
+                for n in names:
+                    st = g.next_stamp()
+                    if rt == "lds" and n == "virtualInbound" and lds_warm:
+                        res += c["init_lds"]["resources"]
+                        continue
+                    res.append(C("RGood", {"lds": lambda: sysgen.listener(n, st), "rds": lambda: sysgen.route_config(n, st),
+                                           "cds": lambda: sysgen.cluster(n, st), "eds": lambda: sysgen.endpoints(n, st)}[rt]()))
+                ops.append({"op": "resp", "rt": rt, "version": "v%d" % g.version, "nonce": "n%d" % g.version, "resources": res})
         ops.append({"op": "await_sweep", "ms": k})
         evicted = [(rt, n) for (rt, n), idle in plan.items() if idle and not (rt == "lds" and n == "virtualInbound")]
         # the control plane answers the unsubscription: a response of a type that may have no names left is still acknowledged
